@@ -53,9 +53,6 @@ Fixpoint qs_trace (c : qcfg) (s : qstate) (ls : list label) : list qs_obs * qsta
     ((o, snap_of s1) :: os, s2)
   end.
 
-Fixpoint sortN (l : list N) : list N :=
-  match l with [] => [] | h :: t => insert_sorted h (sortN t) end.
-
 Definition final_of (s : qstate) : qs_final :=
   (mem s, sortN (s_add (pst s)), s_flushed (pst s), sortN (s_add (tst s)), s_flushed (tst s)).
 
@@ -85,3 +82,7 @@ Definition qs_hyps_safety (cs : list qs_case) : list bool :=
   map (fun c => let '(d, m, ls, _, _) := c in
                 let r := q_run (mkCfg d m) q_init ls in
                 wf_client (effective ls (snd r)) && no_findings_safety (mkCfg d m) ls) cs.
+
+(* ... and of the theorems over label lists with restarts? *)
+Definition qs_hyps_restart (cs : list qs_case) : list bool :=
+  map (fun c => let '(d, m, ls, _, _) := c in wf_client ls && no_findings_restart (mkCfg d m) ls) cs.
